@@ -50,7 +50,9 @@ Record config := {
   lcap : Z;                  (* _local_capacity *)
   stealing : Z;              (* _enable_work_stealing as 0/1 *)
   interval : Z;              (* _balance_interval.count(), negative = unset *)
-  bodies : list (list nat)   (* task id -> tasks it submits while running *)
+  bodies : list (list nat);  (* task id -> tasks it submits while running *)
+  blocks : list (list nat)   (* for_each over _local_task_queues: one callback invocation per storage block (128
+                                thread ids); the workers whose local queue lies in each block, in scan order *)
 }.
 Definition global_slots (c : config) : nat := Z.to_nat (bit_ceil (global_reserve (gcap c))).
 Definition has_balancer (c : config) : bool := balance_enabled (interval c).
@@ -96,7 +98,9 @@ Inductive pc :=
 | EStopFill (i : Z) (p : nat)
 | EStopJoin (k : nat)                              (* stop: joining worker k *)
 | WLoop                                            (* keep_execute: try_pop on the own local queue *)
-| WSteal (k : nat)                                 (* for_each: try_pop on worker k's local queue *)
+| WSteal (rest : list (list nat)) (cur : list nat) (* for_each: blocks still to visit, queues left in the current block *)
+| WStealHeld (rest : list (list nat)) (cur : list nat) (it : item)   (* still scanning although `it` was stolen
+                                                      (only without the per-block guard) *)
 | WTake                                            (* global pop: fetch_add on the pop index *)
 | WPop (q : nat)                                   (* waiting for the item of pop ticket q *)
 | WBegin (id : nat)                                (* task.function() about to start *)
@@ -278,8 +282,39 @@ Definition step_ext (c : config) (s : st) (t : nat) (th : thread) : option st :=
   end.
 
 (* ---- workers ------------------------------------------------------------------------------------------------ *)
-Definition after_steal (c : config) (k : nat) : pc :=
-  if (S k <? nworkers c)%nat then WSteal (S k) else if global_pop_needed 0 then WTake else WLoop.
+(* the callback passed to for_each begins with `if (steal_success) return;` (regenerated): once a task has been
+   stolen the remaining blocks are skipped *)
+Definition guard_on : bool := (steal_block_guard =? 1).
+(* next block whose queues are scanned *)
+Fixpoint advance (rest : list (list nat)) (ss : bool) : option (list (list nat) * list nat) :=
+  match rest with
+  | [] => None
+  | blk :: r => if guard_on && ss then advance r ss
+                else match blk with [] => advance r ss | _ :: _ => Some (r, blk) end
+  end.
+Definition no_steal : pc := if global_pop_needed 0 then WTake else WLoop.
+Definition scan_start (c : config) : pc :=
+  match advance (blocks c) false with None => no_steal | Some (r, b) => WSteal r b end.
+(* try_pop failed: steal_success = false; next queue of the block, next block, or the global pop *)
+Definition after_fail (rest : list (list nat)) (cur : list nat) : pc :=
+  match cur with
+  | _ :: _ => WSteal rest cur
+  | [] => match advance rest false with None => no_steal | Some (r, b) => WSteal r b end
+  end.
+(* try_pop succeeded: steal_success = true, the callback returns; for_each goes on with the next block *)
+Definition after_success (rest : list (list nat)) (it : item) : pc :=
+  match advance rest true with
+  | None => if global_pop_needed 1 then WTake else dispatch it
+  | Some (r, b) => WStealHeld r b it
+  end.
+Definition held_fail (rest : list (list nat)) (cur : list nat) (it : item) : pc :=
+  match cur with
+  | _ :: _ => WStealHeld rest cur it
+  | [] => match advance rest false with
+          | None => if global_pop_needed 0 then WTake else dispatch it    (* the global pop overwrites `it` *)
+          | Some (r, b) => WStealHeld r b it
+          end
+  end.
 
 Definition step_worker (c : config) (s : st) (t w : nat) (th : thread) : option st :=
   match tpc th with
@@ -287,20 +322,29 @@ Definition step_worker (c : config) (s : st) (t w : nat) (th : thread) : option 
     match try_pop (lq_of s w) with
     | Some (it, q) =>
       if worker_local_first 1                                                   (* never: the generated test is "not popped" *)
-      then Some (set_thread (set_lq s w q) t (goto th (if steal_enabled (stealing c) then WSteal 0 else WTake)))
+      then Some (set_thread (set_lq s w q) t (goto th (if steal_enabled (stealing c) then scan_start c else WTake)))
       else Some (set_thread (set_lq s w q) t (goto th (dispatch it)))
     | None =>
       if worker_local_first 0
-      then Some (set_thread s t (goto th (if steal_enabled (stealing c) then WSteal 0 else WTake)))
+      then Some (set_thread s t (goto th (if steal_enabled (stealing c) then scan_start c else WTake)))
       else Some (set_thread s t (goto th WLoop))
     end
-  | WSteal k =>
+  | WSteal rest [] => Some (set_thread s t (goto th (after_fail rest [])))
+  | WSteal rest (k :: cur) =>
     match try_pop (lq_of s k) with
-    | Some (it, q) =>
-      if global_pop_needed 1 then Some (set_thread (set_lq s k q) t (goto th WTake))   (* never *)
-      else Some (set_thread (set_lq s k q) t (goto th (dispatch it)))
-    | None => Some (set_thread s t (goto th (after_steal c k)))
+    | Some (it, q) => Some (set_thread (set_lq s k q) t (goto th (after_success rest it)))
+    | None => Some (set_thread s t (goto th (after_fail rest cur)))
     end
+  | WStealHeld rest cur it0 =>            (* reachable only when the guard is missing; `it0` may be overwritten *)
+    if guard_on then None
+    else match cur with
+         | [] => Some (set_thread s t (goto th (held_fail rest [] it0)))
+         | k :: cur' =>
+           match try_pop (lq_of s k) with
+           | Some (it, q) => Some (set_thread (set_lq s k q) t (goto th (after_success rest it)))
+           | None => Some (set_thread s t (goto th (held_fail rest cur' it0)))
+           end
+         end
   | WTake =>
     let '(q, g) := take_pop (gq s) in Some (set_thread (set_gq s g) t (goto th (WPop q)))
   | WPop q =>
